@@ -10,6 +10,17 @@ TRUSTED_COMMON = [
 ]
 
 PROPS = {
+    "C13": dict(
+        suites=[130],
+        design_ref="DESIGN.md section 5, C13",
+        rule=("suite 130: kind 0 encode+decode+size over num 0..65535 x more x szx 0..7 (thorough: all 1048576 triples; quick: all triples for szx 0 and 7, num < 300, powers of two and their predecessors, every 17th num otherwise), "
+              "kind 1 decode over all byte strings of length <= 2, a 13x13x52 (thorough: complete) grid of length 3 and random strings of length 4..5, kind 2 BlockValue::new over num in {0..4097 strided, 4095..4097, 65535..65537, 2^32, usize::MAX} x sizes 0..8200 and 2^k-1, 2^k, 2^k+1 up to usize::MAX; "
+              "verdict from the RFC 7959 formula only; class = kind; non-trivial = in range; distinct = distinct input"),
+        level_text=("Theorems for all values: C13_roundtrip (every num < 65536, more, szx < 8: the encoding is the minimal uint NUM<<4|M<<3|SZX, decoding it returns the triple, size = 2^(szx+4)), C13_decode_total (every byte string: error iff longer than 3 bytes or NUM > 65535, "
+                    "otherwise the fields of its big-endian value), C13_new (every usize num and size: error iff size = 0, size >= 4096 or num >= 65536, otherwise exponent log2(size)-4 saturated at 0, with the 0..63 search loop proved equal to log2), C13_new_size (largest power of two not above the size, at least 16)."),
+        level_note="Hand-written model of block_value.rs tied to the Rust by differential execution (dev and release), close to exhaustive in the thorough tier.",
+        modelled="src/block_handler/block_value.rs (BlockValue::new, largest_power_of_2_not_in_excess, size, From<BlockValue> for Vec<u8>, TryFrom<Vec<u8>>)",
+    ),
     "C06": dict(
         suites=[60],
         design_ref="DESIGN.md section 5, C06",
@@ -114,7 +125,6 @@ NOT_APPLICABLE = {
     "C10": "check under construction in this development (model and theorems not yet committed)",
     "C11": "check under construction in this development (model and theorems not yet committed)",
     "C12": "check under construction in this development (model and theorems not yet committed)",
-    "C13": "check under construction in this development (model and theorems not yet committed)",
     "C14": "check under construction in this development (model and theorems not yet committed)",
     "C15": "check under construction in this development (model and theorems not yet committed)",
     "C16": "check under construction in this development (model and theorems not yet committed)",
